@@ -200,6 +200,9 @@ func (h *vHandler) handle(key []byte, isObj bool, data []byte) (int, error) {
 		}
 		return p, nil
 	}
+	if h.mode == 4 {
+		return 0, nil
+	}
 	end, ok := vRefValueEnd(data, 0, 0)
 	if ok && vNondetBool("exact") {
 		return end, nil
@@ -1146,5 +1149,117 @@ func vH_C16_owned(data []byte) {
 	}
 	if terr == nil && wf && fits {
 		vAssert(vTreeEq(tree, wantTree), "C16.tree-owns-memory")
+	}
+}
+
+// ---- C19 ---------------------------------------------------------------
+// group: which functions are measured. The first (unmeasured) call warms the Buffer on the
+// same document with a handler that declines every member (deepest use of the stack).
+func vC19Call(group int, data []byte, buf *Buffer, dst []byte, h *vHandler) bool {
+	switch group {
+	case 0:
+		_, err := SkipValue(data, buf)
+		return err == nil
+	case 1:
+		_, err := SkipValueFast(data, buf)
+		return err == nil
+	case 2:
+		return Valid(data, buf)
+	case 3:
+		_, err := HandleArrayValues(data, h, buf)
+		return err == nil
+	case 4:
+		_, err := HandleObjectValues(data, h, buf)
+		return err == nil
+	case 5:
+		_, _, err := ReadStringBytes(data, dst)
+		return err == nil
+	case 6:
+		_, _, err := UnescapeStringContent(data, dst)
+		return err == nil
+	case 7:
+		_, _, e1 := NextToken(data)
+		_, _, e2 := NextTokenType(data)
+		return e1 == nil && e2 == nil
+	case 8:
+		_, err := ReadNull(data)
+		return err == nil
+	case 9:
+		_, _, err := ReadBool(data)
+		return err == nil
+	case 10:
+		_, _, err := ReadInt64(data)
+		return err == nil
+	case 11:
+		_, _, err := ReadUint64(data)
+		return err == nil
+	case 12:
+		_, _, e1 := ReadInt32(data)
+		_, _, e2 := ReadUint32(data)
+		_, _, e3 := ReadInt(data)
+		_, _, e4 := ReadUint(data)
+		return e1 == nil && e2 == nil && e3 == nil && e4 == nil
+	case 13:
+		var a int64
+		var b uint64
+		var c int32
+		var d uint32
+		var e int
+		var f uint
+		_, e1 := DecodeInt64(data, &a)
+		_, e2 := DecodeUint64(data, &b)
+		_, e3 := DecodeInt32(data, &c)
+		_, e4 := DecodeUint32(data, &d)
+		_, e5 := DecodeInt(data, &e)
+		_, e6 := DecodeUint(data, &f)
+		return e1 == nil && e2 == nil && e3 == nil && e4 == nil && e5 == nil && e6 == nil
+	case 14:
+		var v bool
+		_, err := DecodeBool(data, &v)
+		return err == nil
+	}
+	var f float64
+	_, _, e1 := ReadFloat64(data)
+	_, e2 := DecodeFloat64(data, &f)
+	return e1 == nil && e2 == nil
+}
+
+func vH_C19(data []byte, group int) {
+	buf := &Buffer{}
+	dst := make([]byte, 0, len(data)+4)
+	warm := &vHandler{whole: data, mode: 4}
+	vC19Call(group, data, buf, dst, warm)
+	h := &vHandler{whole: data}
+	vReach("C19.warmed")
+	vAllocWatch(true)
+	ok := vC19Call(group, data, buf, dst, h)
+	vAllocWatch(false)
+	if ok {
+		vReach("C19.success")
+		vAssert(vAllocs() == 0, "C19.zero-allocations")
+	}
+}
+
+// native confirmation for allocation sites found by the static scan of the float path
+var vFloatBattery = []string{
+	"1", "-0", "1.5", "1e23", "100000000000000016777215", "9007199254740993", "4.9e-324", "2.2250738585072011e-308",
+	"1.7976931348623157e308", "123456789012345678901234567890", "0.000000000000000000000000000000000000000000001",
+	"1.00000000000000011102230246251565404236316680908203125",
+	"2.22507385850720113605740979670913197593481954635164564e-308",
+	"8.98846567431157953864652595394512366808988489471153286367150405788663379027504815663542386612037680105600569399356966788293948844072083112464237153197370621888839467124327426381511098006230470597265414760425028844190753411712314407369565552704136185816752553422931491199736229692398582528885087897927741455e307",
+}
+
+func vH_C19_floatbattery() {
+	for _, lit := range vFloatBattery {
+		d := []byte(lit)
+		var f float64
+		ReadFloat64(d)
+		vAllocWatch(true)
+		_, _, err := ReadFloat64(d)
+		_, err2 := DecodeFloat64(d, &f)
+		vAllocWatch(false)
+		if err == nil && err2 == nil {
+			vAssert(vAllocs() == 0, "C19.float-battery "+lit[:8])
+		}
 	}
 }
